@@ -454,7 +454,12 @@ int lzxd_decompress(struct lzxd_stream *lzx, off_t out_bytes) {
 
     /* calculate size of frame: all frames are 32k except the final frame
      * which is 32kb or less. this can only be calculated when lzx->length
-     * has been filled in. */
+     * has been filled in. lzxd_set_output_length() may only be called once
+     * the input for the final frame is being read (the CAB block reader
+     * calls it when it reads the last data block), so while the length is
+     * still unknown make sure input for this frame is available before
+     * deciding the frame's size */
+    if (!lzx->length) READ_IF_NEEDED;
     frame_size = LZX_FRAME_SIZE;
     if (lzx->length && (lzx->length - lzx->offset) < (off_t)frame_size) {
       frame_size = lzx->length - lzx->offset;
